@@ -211,6 +211,7 @@ int main(int argc, char** argv) {
   s1r.chunk = 512;
   s1r.rule = "all sequences of exactly 3 atoms over the reduced alphabet {plain, \\\", \\\\, \\n, \\u0041, valid pair, lone high, \\x, raw 0x01, raw 0x1f} with p in 0.." + std::to_string(RP - 1) + " plain bytes before, gap g in {0,1,15,16,31} between atoms, padded to total length class {none,33,64}; same four contexts";
   vr::Family s1, s3, u1, u2a, u2b, u2c;
+  vr::Family u3;
   s1.name = "S1_atom_sequences";
   s1.count = nseq * NP * NG * NT;
   s1.group = "S1";
@@ -227,6 +228,11 @@ int main(int argc, char** argv) {
   u1.group = "U1";
   u1.chunk = 1024;
   u1.rule = "every 16-bit \\uXXXX alone (lower/upper/mixed-case hex) after p in {0,5,26..31} plain bytes, through Document::Parse in all contexts";
+  u3.name = "U3_hex_digit_every_byte";
+  u3.count = 256ull * 4 * 71 * 3;
+  u3.group = "U3";
+  u3.chunk = 512;
+  u3.rule = "\\u escapes in which one of the four digit positions holds every byte value 0..255 (the other digits valid, three base values 0041 / 00e9 / AbCd), after p in 0..70 plain bytes (the escape at every position relative to the 16/32-byte blocks), all contexts: accepted only for the 22 hex digits, and then decoded exactly";
   static const uint32_t Lb[64] = {0x0000, 0x0001, 0x001f, 0x0020, 0x0022, 0x005c, 0x007f, 0x0080, 0x00ff, 0x0100, 0x07ff, 0x0800, 0x0fff, 0x1000, 0x7fff, 0x8000,
                                   0xd7fe, 0xd7ff, 0xd800, 0xd801, 0xdbfe, 0xdbff, 0xdc00, 0xdc01, 0xdffe, 0xdfff, 0xe000, 0xe001, 0xfffe, 0xffff, 0xfeff, 0xfffd,
                                   0x0041, 0x00e9, 0x20ac, 0xd83d, 0xde00, 0xabcd, 0xABCD & 0xffff, 0x1234, 0x0a0a, 0xa0a0, 0xd900, 0xda00, 0xdb00, 0xdd00, 0xde01, 0xdf00,
@@ -322,6 +328,21 @@ int main(int argc, char** argv) {
       check_body(body, ctx);
       return;
     }
+    if (nm[0] == 'U' && nm[1] == '3') {
+      static const char* bases[3] = {"0041", "00e9", "AbCd"};
+      unsigned bi = (unsigned)(idx % 3);
+      idx /= 3;
+      unsigned p = (unsigned)(idx % 71);
+      idx /= 71;
+      unsigned pos = (unsigned)(idx % 4);
+      unsigned byte = (unsigned)(idx / 4);
+      std::string digits = bases[bi];
+      digits[pos] = (char)byte;
+      std::string body = std::string(p, 'q') + "\\u" + digits + "zz";
+      if (ctx.want_sample) ctx.sample(vr::hex(body));
+      check_body(body, ctx);
+      return;
+    }
     if (nm[1] == '1') {
       static const unsigned ps[8] = {0, 5, 26, 27, 28, 29, 30, 31};
       unsigned p = ps[idx % 8];
@@ -349,10 +370,10 @@ int main(int argc, char** argv) {
     check_pair_direct((uint32_t)(idx >> 16), (uint32_t)(idx & 0xffff), ctx, false);
   };
 
-  std::vector<vr::Family> fams = {s1, s1r, s3, u1, u2a, u2b};
+  std::vector<vr::Family> fams = {s1, s1r, s3, u1, u3, u2a, u2b};
   if (!quick && !asan) fams.push_back(u2c);
   if (args.replay) {
-    std::vector<vr::Family> all = {s1, s1r, s3, u1, u2a, u2b, u2c};
+    std::vector<vr::Family> all = {s1, s1r, s3, u1, u3, u2a, u2b, u2c};
     return R.replay_one(all, check);
   }
   const std::string only = args.get("only");
